@@ -21,7 +21,7 @@ if ! git -C "$EV/repo" apply "$DST/patch.diff" 2>"$EV/apply.err"; then
 fi
 git -C /verif archive HEAD sim | tar -x -C "$EV"
 sed -i "s#path = \"/repo\"#path = \"$EV/repo\"#" "$EV/sim/Cargo.toml"
-[ -d /verif/target/release ] && mkdir -p "$EV/target" && cp -r /verif/target/release "$EV/target/release"
+[ -d /verif/target/release ] && mkdir -p "$EV/target" && cp -a /verif/target/release "$EV/target/release"
 if ! (cd "$EV/sim" && CARGO_TARGET_DIR="$EV/target" cargo build --release --offline >"$EV/build.log" 2>&1); then
     echo "build failed"; tail -20 "$EV/build.log"; cleanup; exit 2
 fi
